@@ -468,7 +468,7 @@ theorem wfInsert_of_reduce (nsq : K → K) (data gs : List (Fld K)) (hred : redu
     rw [List.map_cons, List.foldl_cons, List.foldl_cons]
     exact ih _
 
-/-- when `Wavefront.insert` succeeds, `reduce` returned fields only (no `none`: the origin-pixel corner where NumPy raises) -/
+/-- when `wfInsert` returns, `reduce` returned fields only (it always does: `wavefront_insert_defined`) -/
 theorem wfInsert_some (nsq : K → K) (data : List (Fld K)) (out out' : Arr K) (w : K)
     (h : wfInsert nsq data out w = some out') : ∃ gs : List (Fld K), reduce data = gs.map some := by
   unfold wfInsert at h
@@ -491,6 +491,17 @@ theorem wfInsert_some (nsq : K → K) (data : List (Fld K)) (out out' : Arr K) (
       rw [this] at h
       obtain ⟨gs, hgs⟩ := ih _ h
       exact ⟨g :: gs, by rw [hgs]; rfl⟩
+
+/-- **`Wavefront.insert` always returns** (C06 `reduce_defined`: since the repo fix of `_merge_shape` no merge of array
+fields can raise), for every collection of fields, target and weight -/
+theorem wavefront_insert_defined (nsq : K → K) (data : List (Fld K)) (out : Arr K) (w : K) :
+    ∃ out', wfInsert nsq data out w = some out' := by
+  obtain ⟨gs, hred⟩ := C06.reduce_defined data
+  exact ⟨_, wfInsert_of_reduce nsq data gs hred out w⟩
+
+/-- and so does `Wavefront.intensity` -/
+theorem intensity_defined (nsq : K → K) (S0 S1 : Int) (data : List (Fld K)) :
+    ∃ I, wfIntensity 1 nsq S0 S1 data = some I := wavefront_insert_defined nsq data _ 1
 
 /-- **`Wavefront.insert(out, weight)` adds `weight * |field|^2` and nothing else**: whenever the call returns, every
 sample of the target is its prior content plus `weight` times the squared modulus of the *coherent sum* of all fields at
@@ -519,6 +530,16 @@ theorem wavefront_insert_weight (nsq : K → K) (h0 : nsq 0 = 0) (data : List (F
   · intro i j hi hj
     rw [insert_disjoint_normSq nsq h0 gs hdis out w i j hi hj, htot]
 
+/-- the same with definedness as a conclusion: for every collection of positive-shape fields the call returns an array of
+the target's shape whose every sample is the prior content plus `weight · |Σ fields|²` -/
+theorem wavefront_insert_weight_total (nsq : K → K) (h0 : nsq 0 = 0) (data : List (Fld K))
+    (hpos : ∀ f ∈ data, 0 < f.arr.s0 ∧ 0 < f.arr.s1) (out : Arr K) (w : K) :
+    ∃ out', wfInsert nsq data out w = some out' ∧ out'.s0 = out.s0 ∧ out'.s1 = out.s1 ∧
+      ∀ i j, 0 ≤ i ∧ i < out.s0 → 0 ≤ j ∧ j < out.s1 →
+        out'.get i j = out.get i j + nsq (sumList data (fun f => f.emb (i - out.s0 / 2) (j - out.s1 / 2))) * w := by
+  obtain ⟨out', h⟩ := wavefront_insert_defined nsq data out w
+  exact ⟨out', h, wavefront_insert_weight nsq h0 data hpos out out' w h⟩
+
 /-- **`Wavefront.intensity` equals `|Wavefront.field|^2`, sample by sample**, for any number of fields, overlapping or
 not: contributions landing on the same sample are added as complex amplitudes before the squared modulus, never as
 intensities -/
@@ -531,6 +552,14 @@ theorem intensity_eq_normSq_field (nsq : K → K) (h0 : nsq 0 = 0) (S0 S1 : Int)
   intro i j hi hj
   rw [hget i j hi hj, field_eq_sum S0 S1 data i j hi hj]
   simp [zerosArr]
+
+/-- unconditional form: the intensity exists and equals `|field|²` at every sample -/
+theorem intensity_eq_normSq_field_total (nsq : K → K) (h0 : nsq 0 = 0) (S0 S1 : Int) (data : List (Fld K))
+    (hpos : ∀ f ∈ data, 0 < f.arr.s0 ∧ 0 < f.arr.s1) :
+    ∃ I, wfIntensity 1 nsq S0 S1 data = some I ∧ I.s0 = S0 ∧ I.s1 = S1 ∧
+      ∀ i j, 0 ≤ i ∧ i < S0 → 0 ≤ j ∧ j < S1 → I.get i j = nsq ((wfField 1 S0 S1 data).get i j) := by
+  obtain ⟨I, h⟩ := intensity_defined nsq S0 S1 data
+  exact ⟨I, h, intensity_eq_normSq_field nsq h0 S0 S1 data hpos I h⟩
 
 /-- **the intensity is the complex squared modulus**: the views theorem at `K = ℂ` with `nsq z = |z|²` (`Complex.normSq`):
 `Wavefront.intensity` at a sample is `|Σ fields|²` -/
